@@ -4,8 +4,10 @@
 From Coq Require Import List Bool Arith.
 Import ListNotations.
 
-(* kinds of PQ transforms that exist when a pipeline is split (Super(..) wrappers and PQ-level ones) *)
-Inductive kind := KFrom | KJoin | KFilter | KAggregate | KCompute | KComputeAgg | KSort | KTake | KSelect | KLoop
+(* kinds of PQ transforms that exist when a pipeline is split (Super(..) wrappers and PQ-level ones).
+   KTakeSorted = a Take whose embedded `sort` is not empty (the flattener hands every take the order in effect);
+   KTake = a Take without one.  Both are recorded as "Take". *)
+Inductive kind := KFrom | KJoin | KFilter | KAggregate | KCompute | KComputeAgg | KSort | KTake | KTakeSorted | KSelect | KLoop
                 | KDistinct | KDistinctOn | KUnion | KExcept | KIntersect.
 
 (* names recorded in the `following` set (SqlTransform::as_str) *)
@@ -27,12 +29,12 @@ Definition is_empty (f : list nm) : bool := match f with [] => true | _ => false
 Definition as_name (k : kind) : nm :=
   match k with
   | KFrom => NFrom | KJoin => NJoin | KFilter => NFilter | KAggregate => NAggregate | KCompute => NCompute
-  | KComputeAgg => NCompute | KSort => NSort | KTake => NTake | KSelect => NSelect | KLoop => NLoop
+  | KComputeAgg => NCompute | KSort => NSort | KTake => NTake | KTakeSorted => NTake | KSelect => NSelect | KLoop => NLoop
   | KDistinct => NDistinct | KDistinctOn => NDistinctOn | KUnion => NUnion | KExcept => NExcept | KIntersect => NIntersect
   end.
 
 Definition all_kinds : list kind :=
-  [KFrom; KJoin; KFilter; KAggregate; KCompute; KComputeAgg; KSort; KTake; KSelect; KLoop; KDistinct; KDistinctOn; KUnion; KExcept; KIntersect].
+  [KFrom; KJoin; KFilter; KAggregate; KCompute; KComputeAgg; KSort; KTake; KTakeSorted; KSelect; KLoop; KDistinct; KDistinctOn; KUnion; KExcept; KIntersect].
 Definition all_names : list nm :=
   [NFrom; NJoin; NCompute; NFilter; NAggregate; NSort; NTake; NDistinct; NDistinctOn; NUnion; NExcept; NIntersect; NLoop; NSelect].
 
@@ -81,7 +83,7 @@ Definition pair_eqb (p q : kind * nm) : bool :=
   nm_eqb (snd p) (snd q) &&
   match fst p, fst q with
   | KFrom, KFrom | KJoin, KJoin | KFilter, KFilter | KAggregate, KAggregate | KCompute, KCompute | KComputeAgg, KComputeAgg
-  | KSort, KSort | KTake, KTake | KSelect, KSelect | KLoop, KLoop | KDistinct, KDistinct | KDistinctOn, KDistinctOn
+  | KSort, KSort | KTake, KTake | KTakeSorted, KTakeSorted | KSelect, KSelect | KLoop, KLoop | KDistinct, KDistinct | KDistinctOn, KDistinctOn
   | KUnion, KUnion | KExcept, KExcept | KIntersect, KIntersect => true
   | _, _ => false
   end.
